@@ -3,6 +3,7 @@ package mon
 import (
 	"errors"
 	"fmt"
+	"math"
 
 	geom "github.com/twpayne/go-geom"
 	"github.com/twpayne/go-geom/encoding/geojson"
@@ -442,6 +443,43 @@ func c01Reset(c *fw.Ctx, t geom.T, kind model.Kind, layout geom.Layout, cl gen.F
 		return
 	}
 	c.Guard("panic", func() { c01ReadBack(c, "second SetCoords", t, g2) })
+	// the same coordinates once more, equal as numbers but not bit for bit: every
+	// zero with the other sign, every NaN with another payload
+	{
+		g3 := g2.Clone()
+		changed := false
+		for _, co := range g3.AllCoords() {
+			for i, v := range co {
+				switch {
+				case v == 0:
+					co[i] = math.Copysign(0, -1)
+					if math.Signbit(v) {
+						co[i] = 0
+					}
+					changed = true
+				case v != v:
+					co[i] = math.Float64frombits(math.Float64bits(v) ^ 0x5)
+					changed = true
+				}
+			}
+		}
+		if changed {
+			c.SetInput(map[string]any{"first": g2.String(), "then_SetCoords": g3.String(), "note": "equal as numbers, other zero signs / NaN payloads"})
+			if c.Guard("panic", func() { err = setCoordsOn(t, g3) }) {
+				return
+			}
+			c.Eval(1)
+			c.Count("setcoords_equal_numbers_other_bits")
+			if err != nil {
+				c.Fail("setcoords-error", "SetCoords of equal numbers with other zero signs failed: %v", err)
+				return
+			}
+			if !expectGeom(c, "SetCoords of equal numbers with other zero signs / NaN payloads", t, g3, model.Opts{}) {
+				return
+			}
+			g2 = g3
+		}
+	}
 	// coordinates aliasing the geometry's own storage, in reverse order
 	ca, ok := t.(coordAt)
 	if !ok || kind == model.Point {
